@@ -18,7 +18,7 @@ TABLE = {
     "C02": ("CFG effect-ordering (validate-before-mutate), dominance of the frozen guard, must-call on all normal exits, endpoint-kind typing of half-open intervals, modular reduction of the rounding helper, effect summaries of query methods (memo coherence)",
             "Failure atomicity and frozen-refusal are decided on every CFG path of add_resource / add_window / align_to with interprocedural may-raise / writes summaries; freeze-on-hand-over by post-dominance; interval discipline by a small type system over bisect / comparison sites; _align_up by modular reduction; every query method writes no field of the map or its memo is written by every mutator.",
             "numeric correctness of the bisect indices beyond the endpoint kinds (N1)", "6/C02"),
-    "C03": ("construction-site ownership, affine address-unit typing with a dependency clause, partition / dispatch shape",
+    "C03": ("construction-site ownership, affine address-unit typing with a dependency clause, guard tables (Boolean function of table membership per result), flattened view when _translate is split",
             "Decides that all three traversals share one translation authority (_translate) fed with the window's own stored range, that scale and base are applied on the right side (unit typing), and that the dispatch over resources / windows is a partition in address order.",
             "numeric equality of the traversals over all trees (N1)", "6/C03"),
     "C04": ("template conformance of Multiplexer.elaborate (read half) on the E-DSL model; decision lists by truth table",
@@ -42,14 +42,14 @@ TABLE = {
     "C10": ("decision lists parametric in the sequencer index; lane / index agreement",
             "Strobes only inside cyc&stb and the matching sequencer state, per-granule select and direction, lane slices, sequencer increment, acknowledge set in Default and cleared with priority, address formation, constructor geometry and window name forwarding.",
             "latency / once-only acknowledge as temporal facts follow by the written induction (N2)", "6/C10"),
-    "C11": ("loop-carried fold typestate of the running bit offset; sibling agreement __init__ / elaborate; generation-condition guards",
-            "Slice = [acc, acc+w), acc advanced unconditionally once per field to the slice stop, same slice for read and write, strobes and data wired under readable()/writable(), width summed from the same expression, access rejection dominates construction, flatten order.",
+    "C11": ("loop-carried fold typestate of the running bit offset; sibling agreement __init__ / elaborate; generation-condition guards; part-count and width rule for concatenated read data",
+            "Slice = [acc, acc+w), acc advanced unconditionally once per field to the slice stop, same slice for read and write (or: element.r_data = Cat(parts) with exactly one part per field, each as wide as its field), strobes and data wired under readable()/writable(), width summed from the same expression, access rejection dominates construction, flatten order.",
             "Amaranth slicing of zero-width / signed shapes (N4)", "6/C11"),
-    "C12": ("decision-list equality by canonical truth table",
-            "The five elaborate() bodies are their own one-step semantics; each storage bit's next-state list is compared with the documented table for a symbolic bit index (every width), read-back and pass-through wiring, storage constructor.",
+    "C12": ("decision-list equality by canonical truth table; member-direction agreement",
+            "The five elaborate() bodies are their own one-step semantics; each storage bit's next-state list is compared with the documented table for a symbolic bit index (every width), read-back and pass-through wiring, storage constructor; plain members that elaborate() drives are declared Out, those it only reads In.",
             "nothing beyond A2/N4", "6/C12"),
     "C13": ("decision-list equality with exhaustive split over trigger modes; typestate of EventMap",
-            "Trigger formulas per mode, pending next-state (trigger wins over clear), index agreement from one sources() tuple, outgoing line, EventMap.add dense/stable numbering with frozen guard dominating the store, setter freezes.",
+            "Trigger formulas per mode, pending next-state (trigger wins over clear), index agreement from one sources() tuple (no regrouped partitions), outgoing line (also as an OR over the sources), EventMap.add dense/stable numbering with frozen guard dominating the store, setter freezes.",
             "nothing beyond A2/N4", "6/C13"),
     "C14": ("decision-list equality, role agreement, sizing idioms, port polarity",
             "Enable latch and read-back, write-one-to-clear gated by the write strobe, role agreement enable/pending, register sizing by ceil-division, map publication, bus port polarity and connect polarity.",
@@ -66,10 +66,10 @@ TABLE = {
     "C18": ("must-pass-through, must-call, taint, monotone flag, idiom conformance",
             "Every namespace mutation is preceded on all paths by an availability query over the same names with a raising failure edge; names are canonicalised first; str() never reaches the deciding comparison; verdict flag is monotone; the prefix test is one of two hand-verified idioms.",
             "soundness/completeness of the prefix loop beyond idiom recognition (N1)", "6/C18"),
-    "C19": ("cross-invocation effect analysis, recursion / while-loop variant classification, set-iteration lint, who-may-call, raise-type discipline, path-typed join, optional-member guards, non-emptiness proofs for reducers without an identity",
-            "No state carried from one elaboration to the next, every recursion structural or bounded, no set iteration without sorted(), metadata mutators unreachable from elaborate(), explicit raises are ValueError/TypeError (frozen exception table), path-typed values are str-mapped before join, optional bus members are accessed under their feature test, reduce/max/min/next without identity only on provably non-empty collections.",
+    "C19": ("cross-invocation effect analysis, recursion / while-loop variant classification, set-iteration lint, who-may-call, raise-type discipline, path-typed join, optional-member guards, non-emptiness proofs for reducers / transpositions without an identity, member-direction agreement, pattern-width agreement across a clamp",
+            "No state carried from one elaboration to the next, every recursion structural or bounded, no set iteration without sorted(), metadata mutators unreachable from elaborate(), explicit raises are ValueError/TypeError (frozen exception table), path-typed values are str-mapped before join, optional bus members are accessed under their feature test, reduce/max/min/next/zip(*x) without identity only on provably non-empty collections, driven plain members are Out and read-only ones In (D8), Case patterns of the Wishbone decoder are as wide as its address port for every accepted parameter (D9: known finding).",
             "absence of every internal exception inside Amaranth calls (N4)", "6/C19"),
-    "C20": ("two-point port polarity type system; driver/polarity agreement; signature parameter-set agreement",
+    "C20": ("two-point port polarity type system; driver/polarity agreement (interface and plain members); signature parameter-set agreement; member presence as a Boolean function",
             "Target ports type as In(initiator signature), every driver of a port member is an output under the port's polarity, connect() arguments have opposite polarity, signature parameters agree across __init__/__eq__/create()/interface constructor, optional members follow features.",
             "behaviour of wiring.connect itself (N4)", "6/C20"),
 }
